@@ -86,6 +86,13 @@ def entry_points():
     prp = chi.PriorPredictiveModel(pm, prior)
     add('PriorPredictiveModel.sample',
         lambda seed: prp.sample(TIMES, n_samples=2, seed=seed)['Value'].to_numpy(dtype=float), gen_ok=False)
+    # the prior predictive model over a POPULATION predictive model: every sample has its own draw from the prior
+    prior_pop = pints.ComposedLogPrior(*[pints.UniformLogPrior(0.9 * v_, 1.1 * v_ + 0.01) if v_ > 0 else
+                                         pints.UniformLogPrior(1.1 * v_ - 0.01, 0.9 * v_) for v_ in
+                                         [0.0, -0.2, 0.2, 0.2, 0.4, 0.05, -1.5, 0.2]])
+    prp_pop = chi.PriorPredictiveModel(ppm, prior_pop)
+    add('PriorPredictiveModel[population].sample',
+        lambda seed: prp_pop.sample(TIMES, n_samples=3, seed=seed)['Value'].to_numpy(dtype=float), gen_ok=False)
     post = _posterior_dataset(pm.get_parameter_names())
     pop = chi.PosteriorPredictiveModel(pm, post)
     pop.sample(TIMES, n_samples=1, individual='a', seed=0)          # (the object was used for ANOTHER individual first)
@@ -178,6 +185,8 @@ def record_trace(i, seed_kind):
             trace.append(dict(e='GlobalSeed', seed='unknown' if e['seed'] is None else str(e['seed'])))
         elif e['e'] == 'GlobalDraw':
             trace.append(dict(e='GlobalDraw', n=e['n']))
+        elif e['e'] == 'GlobalRestore':
+            trace.append(dict(e='GlobalRestore', seed='unknown' if e['seed'] is None else str(e['seed']), pos=int(e['pos'])))
         elif e['e'] in ('MakeGen', 'Adopt'):
             trace.append(dict(e=e['e'], key=_key(e['key'])))
     return trace, err
